@@ -74,6 +74,7 @@ package flyt
 //@   loop 1 invariant attErr == lastErr && !sawCancel
 //@   loop 1 invariant [C02] nExec <= budget(node)
 //@   loop 1 invariant [C20] lastEnd <= now
+//@   loop 1 candidate !cancelled
 //@   loop 1 decreases [C02] budget(node) - nExec
 //@   ensures [C04,C06,C18] isBatch(node) ==> nBatch == 1 && act == bAct && err == bErr && ph == 0
 //@   ensures [C01,C18] !isBatch(node) ==> (err == nil && act != "") || (err != nil && act == "")
@@ -102,7 +103,7 @@ package flyt
 //@   requires okNode(start)
 //@   havoc user
 //@   ensures [C03] fresh(f) && f.start == start && flowRep(f)
-//@   ensures [C03,C10,C19] f.BaseNode != nil && baseDefaults(f.BaseNode)
+//@   ensures [C19] f.BaseNode != nil && baseDefaults(f.BaseNode)
 //@   ensures [C03] forall n Node :: !has(f.transitions, n)
 
 //@ func (*Flow).Connect(f, from, action, to) (r)
@@ -139,6 +140,7 @@ package flyt
 //@   loop 1 invariant !failed && !sawCancel && childErr == nil && visits >= 0 && okNode(cur)
 //@   loop 1 invariant [C05] cancelled@entry ==> callbacks == callbacks@entry && visits == 0
 //@   loop 1 invariant visits >= 1 || (cur == f.start && cur != nil)
+//@   loop 1 candidate !cancelled
 //@   ensures [C03] err == nil ==> cur == nil && visits >= 1
 //@   ensures [C10] err == nil ==> res == box(last, Action)
 //@   ensures [C04] failed ==> err == childErr && err != nil
@@ -586,7 +588,7 @@ package flyt
 //@ spec func lenOf(v any) int
 //@ spec func elemOf(v any, i int) any
 //@ func Result.AsString(r) (x, ok)
-//@   ensures [C15] ok == isStr(r.value) && x == (isStr(r.value) ? r.value.(string) : "")
+//@   ensures [C15] ok == isStr(r.value) && (ok ==> x == r.value.(string))
 //@ func Result.AsStringOr(r, d) (x)
 //@   ensures [C15] x == (isStr(r.value) ? r.value.(string) : d)
 //@ func Result.MustString(r) (x)
@@ -610,7 +612,7 @@ package flyt
 //@   ensures [C13] nGet == 1
 //@   ensures [C15] x == (has(s.data, key) && isStr(s.data[key]) ? s.data[key].(string) : d)
 //@ func Result.AsInt(r) (x, ok)
-//@   ensures [C15] ok == isNum(r.value) && x == (isNum(r.value) ? intOf(r.value) : 0)
+//@   ensures [C15] ok == isNum(r.value) && (ok ==> x == intOf(r.value))
 //@ func Result.AsIntOr(r, d) (x)
 //@   ensures [C15] x == (isNum(r.value) ? intOf(r.value) : d)
 //@ func Result.MustInt(r) (x)
@@ -634,7 +636,7 @@ package flyt
 //@   ensures [C13] nGet == 1
 //@   ensures [C15] x == (has(s.data, key) && isNum(s.data[key]) ? intOf(s.data[key]) : d)
 //@ func Result.AsFloat64(r) (x, ok)
-//@   ensures [C15] ok == isNum(r.value) && x == (isNum(r.value) ? floatOf(r.value) : fzero())
+//@   ensures [C15] ok == isNum(r.value) && (ok ==> x == floatOf(r.value))
 //@ func Result.AsFloat64Or(r, d) (x)
 //@   ensures [C15] x == (isNum(r.value) ? floatOf(r.value) : d)
 //@ func Result.MustFloat64(r) (x)
@@ -658,7 +660,7 @@ package flyt
 //@   ensures [C13] nGet == 1
 //@   ensures [C15] x == (has(s.data, key) && isNum(s.data[key]) ? floatOf(s.data[key]) : d)
 //@ func Result.AsBool(r) (x, ok)
-//@   ensures [C15] ok == isBoolV(r.value) && x == (isBoolV(r.value) ? r.value.(bool) : false)
+//@   ensures [C15] ok == isBoolV(r.value) && (ok ==> x == r.value.(bool))
 //@ func Result.AsBoolOr(r, d) (x)
 //@   ensures [C15] x == (isBoolV(r.value) ? r.value.(bool) : d)
 //@ func Result.MustBool(r) (x)
@@ -682,7 +684,7 @@ package flyt
 //@   ensures [C13] nGet == 1
 //@   ensures [C15] x == (has(s.data, key) && isBoolV(s.data[key]) ? s.data[key].(bool) : d)
 //@ func Result.AsMap(r) (x, ok)
-//@   ensures [C15] ok == isMapV(r.value) && x == (isMapV(r.value) ? r.value.(map[string]any) : nil)
+//@   ensures [C15] ok == isMapV(r.value) && (ok ==> x == r.value.(map[string]any))
 //@ func Result.AsMapOr(r, d) (x)
 //@   ensures [C15] x == (isMapV(r.value) ? r.value.(map[string]any) : d)
 //@ func Result.MustMap(r) (x)
@@ -738,7 +740,6 @@ package flyt
 //@   ensures [C15,C06] isType(v, []map[string]any) ==> len(res) == len(v.([]map[string]any)) && (forall j int :: 0 <= j && j < len(res) ==> res[j] == box(v.([]map[string]any)[j], map[string]any))
 //@   ensures [C15,C06] isSliceV(v) && !isType(v, []any) && !isType(v, []string) && !isType(v, []int) && !isType(v, []float64) && !isType(v, []map[string]any) ==> len(res) == lenOf(v) && (forall j int :: 0 <= j && j < len(res) ==> res[j] == elemOf(v, j))
 //@   ensures [C15,C06] v != nil && !isSliceV(v) ==> len(res) == 1 && res[0] == v
-//@   ensures [C15,C06] !isType(v, []any) ==> fresh(sarr(res)) && soff(res) == 0
 
 // slice accessors: succeed exactly for slice values and then return what ToSlice returns
 //@ func Result.AsSlice(r) (x, ok)
@@ -750,7 +751,6 @@ package flyt
 //@   ensures [C15] ok == isSliceV(r.value)
 //@   ensures [C15] isType(r.value, []any) ==> x == r.value.([]any)
 //@   ensures [C15] ok && !isType(r.value, []any) ==> nTS == 1 && x == ts
-//@   ensures [C15] !ok ==> x == slice(0, 0, 0, 0)
 //@ func Result.AsSliceOr(r, d) (x)
 //@   havoc alloc
 //@   ghost nAS int = 0; as []any = slice(0, 0, 0, 0); aok bool = false
@@ -843,6 +843,7 @@ package flyt
 //@   loop 1 invariant [C02] nExec <= budget(node)
 //@   loop 1 invariant [C20] lastEnd <= now
 //@   loop 1 invariant [C11] cancelled@entry ==> callbacks == callbacks@entry && nExec == 0
+//@   loop 1 candidate !cancelled
 //@   loop 1 decreases [C02] budget(node) - nExec
 //@   ensures [C02] !sawCancel ==> nExec >= 1 && nExec <= budget(node) && (nFb == 1 <==> implements(node, FallbackNode) && attErr != nil && nExec == budget(node))
 //@   ensures [C02] !sawCancel && attErr == nil ==> nFb == 0
@@ -961,7 +962,6 @@ package flyt
 //@   ensures [C08,C12,C19] p.workers == poolSize(workers)
 //@   ensures [C08,C12,C19] spawned == poolSize(workers)
 //@   ensures allocated(p.tasks) && allocated(p.done) && p.tasks != nil && p.done != nil && p.tasks != p.done && !closed(p.tasks) && !closed(p.done)
-//@   ensures [C08,C12] chancap(p.tasks) == 2 * poolSize(workers)
 
 //@ func (*WorkerPool).worker(p) ()
 //@   requires p != nil
@@ -1036,7 +1036,6 @@ package flyt
 //@   ensures [C09,C11] cnt == 0 ==> (*results)[*idx].err != nil
 //@   ensures [C09] cnt == 1 && oe != nil && *errorHandling == "stop" ==> *shouldStop
 //@   ensures [C09] (old(*shouldStop) ==> *shouldStop) && (*errorHandling != "stop" ==> *shouldStop == old(*shouldStop))
-//@   ensures [C13,C09] sections <= 2
 
 // Submission: one task per index, bound to its own index and item copy; Wait before returning; Close after Wait.
 //@ func runBatchConcurrent(ctx, node, items, results, concurrency, errorHandling) ()
